@@ -73,6 +73,11 @@ def corpus(tier, seed):
         alt = '|'.join('w%d' % i for i in range(n))
         add('long pattern with a backtracking part', '(?:' + alt + ')|(a|aa)+$', 'a' * 44 + 'b!')
         add('long pattern with a backtracking part', '(a+)+$|' + alt, 'a' * 40 + '!')
+    for k in (22, 26, 32):
+        # a group holding many escapes next to a part that runs into the timeout (what happens AFTER the timeout fired is part of the call)
+        add('escapes in a group + backtracking', '(' + '\\d' * k + ')?(a|aa)+$', 'a' * 40 + 'b')
+        add('escapes in a group + backtracking', '(' + '\\d\\d\\d\\d-\\d\\d-\\d\\d \\d\\d:\\d\\d:\\d\\d\\.' + '\\d' * (k - 14) + ')|(a+)+$', 'a' * 40 + '!')
+        add('escapes in a group + backtracking', '(?:' + '\\w\\s' * (k // 2) + ')*(x+x+)+y', 'x' * 60)
     add('invalid pattern', r'(a', 'aaa')
     add('invalid pattern', r'a{2,1}', 'aaa')
     add('non-string', None, 'aaa')
